@@ -63,13 +63,16 @@ type Fault struct {
 }
 
 type Options struct {
-	VdrMode  string
-	Enforce  string
-	Scratch  string
-	MaxIter  int
-	Fault    *Fault
-	KeepDir  bool
-	PermSite func(site string) bool // which map-iteration sites are choice points
+	VdrMode string
+	Enforce string
+	// SiblingPaths: the declarations live below a second MROPATH entry
+	// whose name extends the first one's (mro, mro_stages).
+	SiblingPaths bool
+	Scratch      string
+	MaxIter      int
+	Fault        *Fault
+	KeepDir      bool
+	PermSite     func(site string) bool // which map-iteration sites are choice points
 	// CrashAt > 0: the process "dies" at the CrashAt-th file-system effect:
 	// that effect and all later ones are suppressed and the run stops.
 	CrashAt int
@@ -147,6 +150,7 @@ type Result struct {
 	Events      []core.VerifEvent
 	TopOuts     *progen.Val
 	TopOutsText string
+	MroPaths    []string
 	PermPoints  []PermPoint // tracked map-iteration occurrences (n>=2)
 	GoPoints    []string    // rewritten go statements executed, in order
 	Effects     int
@@ -254,6 +258,23 @@ func splitFq(psid, fq string) (path, fork string, chunk int) {
 
 // WriteProgram writes the MRO text and empty stage executables into dir.
 func WriteProgram(p *progen.Program, dir string) (string, error) {
+	return writeProgramAt(p, dir, dir, "defs.mro")
+}
+
+// WriteProgramSiblingPaths lays the program out over two MROPATH entries one
+// of which is a string prefix of the other: <base>/mro holds the invocation,
+// <base>/mro_stages/stages/defs.mro the declarations (included as
+// "stages/defs.mro").  It returns the invocation text and the MROPATH.
+func WriteProgramSiblingPaths(p *progen.Program, base string) (string, []string, error) {
+	mro, stages := filepath.Join(base, "mro"), filepath.Join(base, "mro_stages")
+	if err := os.MkdirAll(filepath.Join(stages, "stages"), 0o755); err != nil {
+		return "", nil, err
+	}
+	src, err := writeProgramAt(p, mro, filepath.Join(stages, "stages"), "stages/defs.mro")
+	return src, []string{mro, stages}, err
+}
+
+func writeProgramAt(p *progen.Program, dir, defsDir, include string) (string, error) {
 	if err := os.MkdirAll(dir, 0o755); err != nil {
 		return "", err
 	}
@@ -268,11 +289,11 @@ func WriteProgram(p *progen.Program, dir string) (string, error) {
 	p.Top = nil
 	defs := p.MRO()
 	p.Top = top
-	if err := os.WriteFile(filepath.Join(dir, "defs.mro"), []byte(defs), 0o644); err != nil {
+	if err := os.WriteFile(filepath.Join(defsDir, "defs.mro"), []byte(defs), 0o644); err != nil {
 		return "", err
 	}
 	q := &progen.Program{Top: top}
-	src := "@include \"defs.mro\"\n\n" + strings.TrimSpace(q.MRO()) + "\n"
+	src := "@include \"" + include + "\"\n\n" + strings.TrimSpace(q.MRO()) + "\n"
 	return src, os.WriteFile(filepath.Join(dir, "prog.mro"), []byte(src), 0o644)
 }
 
@@ -315,7 +336,14 @@ func Run(p *progen.Program, sched Schedule, opts Options) (res *Result) {
 		defer os.RemoveAll(dir)
 	}
 	mroDir := filepath.Join(dir, "mro")
-	src, err := WriteProgram(p, mroDir)
+	mroPaths := []string{mroDir}
+	var src string
+	if opts.SiblingPaths {
+		src, mroPaths, err = WriteProgramSiblingPaths(p, dir)
+	} else {
+		src, err = WriteProgram(p, mroDir)
+	}
+	res.MroPaths = mroPaths
 	if err != nil {
 		res.Err = err.Error()
 		return
@@ -458,15 +486,15 @@ func Run(p *progen.Program, sched Schedule, opts Options) (res *Result) {
 		defer func() { vshim.Frozen = time.Time{} }()
 	}
 	if opts.Resume {
-		err = h.Reattach(src, filepath.Join(mroDir, "prog.mro"), Psid, psdir, []string{mroDir}, true)
+		err = h.Reattach(src, filepath.Join(mroDir, "prog.mro"), Psid, psdir, mroPaths, true)
 	} else {
-		err = h.Invoke(src, filepath.Join(mroDir, "prog.mro"), Psid, psdir, []string{mroDir})
+		err = h.Invoke(src, filepath.Join(mroDir, "prog.mro"), Psid, psdir, mroPaths)
 	}
 	if err != nil {
 		res.Err = "invoke: " + err.Error()
 		if !opts.Resume {
 			// does the compiler (mro check) accept the program on its own?
-			if _, _, _, cerr := syntax.ParseSourceBytes([]byte(src), filepath.Join(mroDir, "prog.mro"), []string{mroDir}, false); cerr == nil {
+			if _, _, _, cerr := syntax.ParseSourceBytes([]byte(src), filepath.Join(mroDir, "prog.mro"), mroPaths, false); cerr == nil {
 				res.CompiledOK = true
 			}
 		}
